@@ -277,3 +277,22 @@ Definition dels (tr : list event) : list entry :=
   flat_map (fun e => match e with EDel x ds => [(x, ds)] | ERel _ => [] end) tr.
 Definition rels (tr : list event) : list id :=
   flat_map (fun e => match e with EDel _ _ => [] | ERel x => [x] end) tr.
+
+(** [grounded del x]: [x] was delivered with a dependency list all of whose members are
+    themselves grounded (least fixed point) -- the items a causal orderer may, and must, release. *)
+Inductive grounded (del : list entry) : id -> Prop :=
+| G_intro x ds : In (x, ds) del -> (forall d, In d ds -> grounded del d) -> grounded del x.
+
+(** two delivery histories that agree up to order, repetition of deliveries and up to the
+    dependency lists being read as sets *)
+Definition deliveries_le (del del' : list entry) : Prop :=
+  forall x ds, In (x, ds) del -> exists ds', In (x, ds') del' /\ forall d, In d ds <-> In d ds'.
+Definition same_deliveries (del del' : list entry) : Prop :=
+  deliveries_le del del' /\ deliveries_le del' del.
+
+Definition trace_of (perm : perm_t) (fuel : nat) (ops : list op) : list event :=
+  events_of ops (snd (run perm fuel empty ops)).
+Definition no_oof (perm : perm_t) (fuel : nat) (ops : list op) : Prop :=
+  oof (fst (run perm fuel empty ops)) = false.
+Definition dedup_op (o : op) : op :=
+  match o with Deliver x ds => Deliver x (nodupN ds) | _ => o end.
